@@ -325,7 +325,8 @@ fn observe(text: &str) -> (String, String) {
             else {
                 let e = &errs[0];
                 let (s, t) = match e.location { pest::error::InputLocation::Span((a, b)) => (a, b), pest::error::InputLocation::Pos(p) => (p, p) };
-                let k = if msgs[0].contains("overflow u32") { "overflow" } else if msgs[0].contains("repeat 0 times") { "zero" } else if msgs[0].contains("PUSH_LITERAL requires") { "pushlit" } else { "other" };
+                let k = if msgs[0].contains("overflow u32") { "overflow" } else if msgs[0].contains("repeat 0 times") { "zero" } else if msgs[0].contains("PUSH_LITERAL requires") { "pushlit" }
+                        else if msgs[0].contains("escape is not a valid character") { "invalid" } else if msgs[0].contains("overflow i32") { "peekoverflow" } else { "other" };
                 format!("Err {} {} {}", k, s, t)
             }
         }
@@ -348,7 +349,14 @@ fn features(e: &GE, t: &mut (bool, bool, bool)) {
     }
 }
 
-struct Run<'w> { w: BufWriter<io::StdoutLock<'w>>, seen: HashSet<String>, tot: Tot }
+/// which repairs does this tree have?  (fixes/C07-1, C07-2 = C09-3, C09-1, C09-2)
+fn probe() -> [bool; 4] {
+    let ok = |t: &str| observe(t).0.starts_with("Ok (a n (");
+    let err = |t: &str| observe(t).0.starts_with("Err");
+    [observe("a = { ^ \"b\" }").0 == "Ok (a n (ins 62))", ok("a = { (| b) }") && ok("a = { PUSH(| b) }"), err("a = { \"\\u{D800}\" }"), err("a = { PEEK[99999999999..] }")]
+}
+
+struct Run<'w> { w: BufWriter<io::StdoutLock<'w>>, seen: HashSet<String>, tot: Tot, fixed: [bool; 4] }
 impl<'w> Run<'w> {
     /// run one spelling; `known` = the generator deliberately used one of the two known-class freedoms
     fn case(&mut self, cg: &CG, text: &str, known: bool) {
@@ -381,7 +389,7 @@ impl<'w> Run<'w> {
                                                               bar: k > 0 && r.chance(1, 5), body: decorate(&g.e, r, &mut d) }).collect() };
             let mut p = Pr { r: &mut *r, out: String::new(), layout, esc: if k == 0 { 0 } else { *[0u64, 20, 60, 100].get(p_idx(k)).unwrap() }, insens_gap: known_mode && !d.bar, used_insens_gap: false, st: Stats::default() };
             p.grammar(&cg);
-            let known = d.used_bar || p.used_insens_gap;
+            let known = (d.used_bar && !self.fixed[1]) || (p.used_insens_gap && !self.fixed[0]);
             let (text, st) = (p.out, p.st);
             let t = &mut self.tot;
             if d.used_redundant { t.redundant += 1; } if st.comments > 0 { t.comments += 1; } if st.escapes > 0 { t.escapes += 1; } if st.zeros > 0 { t.zeros += 1; }
@@ -414,13 +422,15 @@ fn all_trees(d: u32, ops: &[&str]) -> Vec<GE> {
 fn main() {
     quiet_panics();
     let stdout = io::stdout();
-    let mut run = Run { w: BufWriter::with_capacity(1 << 20, stdout.lock()), seen: HashSet::new(), tot: Tot::default() };
+    let fixed = probe();
+    let mut run = Run { w: BufWriter::with_capacity(1 << 20, stdout.lock()), seen: HashSet::new(), tot: Tot::default(), fixed };
     match arg(1).as_str() {
         "metagrammar" => {
             let text = std::fs::read_to_string(format!("{}/meta/src/grammar.pest", repo())).unwrap();
             let r = catch(|| { let pairs = parser::parse(Rule::grammar_rules, &text).unwrap(); sexp_grammar(&from_rules(&parser::consume_rules(pairs).unwrap())) });
             writeln!(run.w, "M\t{}", r.unwrap_or_else(|_| "PANIC".into())).unwrap();
         }
+        "probe" => { writeln!(run.w, "#PROBE\tfix_insens={}\tfix_bar={}\tfix_literal_err={}\tfix_peek_err={}", fixed[0] as u8, fixed[1] as u8, fixed[2] as u8, fixed[3] as u8).unwrap(); }
         "random" => {
             let count = arg_u64(2, 100); let mut rng = Rng::new(arg_u64(3, 0)); let per = arg_u64(4, 5); let depth = arg_u64(5, 4) as u32;
             for _ in 0..count { let d = 1 + rng.below(depth as u64) as u32; let rules = gen_rules(&mut rng, d); run.spellings(&rules, &mut rng, per, true); }
@@ -439,11 +449,12 @@ fn main() {
             // the two known deviations and a few fixed precedence examples, as complete cases
             let id = |s: &str| Box::new(CE::Id(s.into()));
             let one = |body: CE| CG { gdocs: 0, trailing: 0, rules: vec![CRule { docs: 0, name: "a".into(), ty: Ty::Normal, bar: false, body }] };
-            run.case(&one(CE::Ins("b".into())), "a = { ^ \"b\" }", true);
-            run.case(&one(CE::Ins("b".into())), "a = { ^/*c*/\"b\" }", true);
-            run.case(&one(CE::Ins("b".into())), "a = { ^ /* \\q */ \"b\" }", true);
-            run.case(&one(CE::Paren(true, Box::new(CE::Cho(id("b"), id("c"))))), "a = { (| b | c) }", true);
-            run.case(&one(CE::Push(true, id("b"))), "a = { PUSH(| b) }", true);
+            let (ki, kb) = (!fixed[0], !fixed[1]);
+            run.case(&one(CE::Ins("b".into())), "a = { ^ \"b\" }", ki);
+            run.case(&one(CE::Ins("b".into())), "a = { ^/*c*/\"b\" }", ki);
+            run.case(&one(CE::Ins("b".into())), "a = { ^ /* \\q */ \"b\" }", ki);
+            run.case(&one(CE::Paren(true, Box::new(CE::Cho(id("b"), id("c"))))), "a = { (| b | c) }", kb);
+            run.case(&one(CE::Push(true, id("b"))), "a = { PUSH(| b) }", kb);
             run.case(&one(CE::Neg(Box::new(CE::Rep(id("b"))))), "a = { !b* }", false);
             run.case(&one(CE::Seq(Box::new(CE::Pos(id("b"))), id("c"))), "a = { &b ~ c }", false);
             run.case(&one(CE::Cho(id("b"), Box::new(CE::Seq(id("c"), id("d"))))), "a = { b | c ~ d }", false);
@@ -460,9 +471,9 @@ fn main() {
             let case = arg(2);
             let f: Vec<&str> = case.split('|').collect();
             let cg = cg_of(f[1].strip_prefix("c=").unwrap()); let text = unhex(f[2].strip_prefix("t=").unwrap());
-            run.case(&cg, &text, arg(3) == "known");
+            run.case(&cg, &text, true);
         }
-        _ => { eprintln!("usage: c07 metagrammar | random COUNT SEED [PER] [DEPTH] | exhaustive DEPTH OPS [PER SEED SHARD SHARDS] | witness | one CASE"); std::process::exit(2); }
+        _ => { eprintln!("usage: c07 probe | metagrammar | random COUNT SEED [PER] [DEPTH] | exhaustive DEPTH OPS [PER SEED SHARD SHARDS] | witness | one CASE"); std::process::exit(2); }
     }
     let t = &run.tot;
     writeln!(run.w, "#SUMMARY\tevaluations={}\tdistinct_nontrivial={}\tok={}\tinvalid={}\tknown_generated={}\tcontract={}\tredundant_parens={}\twith_comments={}\twith_escapes={}\twith_docs={}\tleading_zeros={}\trule_bars={}\tmixed_levels={}\tsame_level_nests={}\tprefix_postfix={}",
